@@ -43,7 +43,9 @@ func init() {
 			add("Not", s, "bool", nil)
 		}
 		// PRelu: slope unidirectionally broadcast to the input
-		pr := [][2][]int{{{2}, {2}}, {{2}, {1}}, {{2, 2}, {2}}, {{2, 2}, {2, 1}}, {{2, 2}, {1, 2}}, {{2, 2}, {}}, {{1, 2, 3, 2}, {2}}, {{2, 2, 2}, {1, 2}}, {{2, 2, 2}, {2, 1, 1}}, {{2}, {2, 2}}, {{2}, {1, 2}}, {{2, 3}, {2}}, {{}, {1}}}
+		pr := [][2][]int{{{2}, {2}}, {{2}, {1}}, {{2, 2}, {2}}, {{2, 2}, {2, 1}}, {{2, 2}, {1, 2}}, {{2, 2}, {}}, {{1, 2, 3, 2}, {2}}, {{2, 2, 2}, {1, 2}}, {{2, 2, 2}, {2, 1, 1}}, {{2}, {2, 2}}, {{2}, {1, 2}}, {{2, 3}, {2}}, {{}, {1}},
+			// a slope of lower rank under a batch of ONE: the broadcast only adds axes, nothing is repeated
+			{{1, 3}, {3}}, {{1, 1, 2}, {2}}, {{1, 2, 2}, {2, 2}}, {{1, 2, 2}, {1, 2}}}
 		for i, c := range pr {
 			add("PRelu", c[0], "float32", c[1])
 			add("PRelu", c[0], []string{"float64", "int32", "int64", "uint32", "uint64"}[i%5], c[1])
@@ -53,7 +55,7 @@ func init() {
 			"every element symbolic under IEEE-754 (FloatingPoint theory): +-0, subnormals, +-Inf, NaN, out-of-domain arguments are all values of the variable",
 			"math wrappers: the result must be the term E(math.F(float64(x))) for the function F the operator is named after (uninterpreted function per routine; constants evaluated with Go's own routine)",
 			"Tanh/Sigmoid: built from math32.Tanh/Exp (float32) resp. math.Tanh/Exp (float64) exactly as gorgonia's kernels call them, plus special-value assertions (NaN, +-Inf, range, halves) under stated facts about exp/tanh on the scalar and (1) shapes (float32; float64 in thorough)",
-			"PRelu: 13 (input, slope) shape pairs incl. non-broadcastable ones and slopes that align with an inner axis of equal extent",
+			"PRelu: 17 (input, slope) shape pairs incl. non-broadcastable ones and slopes that align with an inner axis of equal extent",
 		}
 		p.Outside = []string{"accuracy of the transcendental routines against the correctly rounded function (no SMT theory; Go's math/math32 trusted)", "extents > 3"}
 		p.Explanation = "operator Apply paths, ops.ReLU/Sigmoid/Tanh, PRelu kernels and the math wrappers executed symbolically"
